@@ -270,12 +270,10 @@ where
                     Some(SeekState::Done(pos))
                 }
                 SeekState::Done(p) => {
-                    if pos == p {
-                        self.seek_state = Some(SeekState::Done(pos));
-                        return Poll::Ready(Ok(pos));
-                    } else {
-                        Some(SeekState::Init)
-                    }
+                    // The state is reset when the seek completes. Otherwise, a later seek to the
+                    // same position is mistaken for the completion of this one and is skipped.
+                    self.seek_state = Some(SeekState::Init);
+                    return Poll::Ready(Ok(p));
                 }
             };
         }
